@@ -52,6 +52,9 @@ def run(tier, seed, replay):
     uni = ["é", "✓", "\U0001f600", "\n", "\t", "\\", "\"", "'", "\x01", "\x7f", " ", "%%", "%a%", "%env(\"H\")%", "%todo()%", "%envInt(\"N\", 5)%", "%a.b-c_d%", "x", "1"]
     for _ in range(300 if tier == "quick" else 20000):
         cands.append("".join(r.choice(uni) for _ in range(r.randint(1, 7))))
+    # strings that look like the service-argument forms: as PARAMETER values they are plain text (no `%` in them)
+    LOOKALIKE = ["@x", "@", "@s", "@a.b", "!value x", "!value 1", "!value al.X", "!value", "!tagged t", "!tagged", "$gontainer", "$gontainer ", "@x%%", "!value %a%", "@%a%"]
+    cands += LOOKALIKE
     fn_cands = []
     # function tokens whose argument text itself contains parentheses, quotes, commas, percent-free operators
     for fn in ("env", "envInt", "todo"):
@@ -132,6 +135,7 @@ def run(tier, seed, replay):
     from . import rtcommon
     shapes = ["%%", "a%%b", "%lit%", "x%lit%y", "%n%", "%n%%n%", "%b%", " %b%", "%nil%", "%nil%!", "%f%", "%u%", "%s%", "%s%%s%", "%%%s%%%", "%env(\"GV_SET\")%", "%env(\"GV_NOPE\")%",
               "%env(\"GV_NOPE\", \"d\")%", "%envInt(\"GV_INT\")%", "%envInt(\"GV_INT\")%0", "%envInt(\"GV_BAD\")%", "%envInt(\"GV_NOPE\", 7)%", "%env(\"GV_EMPTY\")%", "%todo()%", "%todo(\"msg\")%",
+              "@x", "@", "!value 1", "!value al.X", "!tagged t", "$gontainer", "@x%%", "!value %n%", "@%lit%",
               "%fn(\"x\", 3)%", "%fn(\"fail\")%", "pre %fn(\"fail\")% post", "é%s%✓", "%lit% %n% %b% %nil% %f% %u%", "100%%", "%%%%", "%env(\"GV_SET\")%/%env(\"GV_SET\")%"]
     base = {"meta": {"imports": {"al": "gv.test/fix/alpha"}, "functions": {"fn": "al.Fn"}},
             "parameters": {"lit": "text", "n": 42, "b": True, "nil": None, "f": 1.5, "u": cfggen.Raw("18446744073709551615"), "s": "é\"q\"\\"}}
@@ -149,6 +153,25 @@ def run(tier, seed, replay):
         hs2[k] = [{"op": "param", "name": p} for p in sp["cfg"]["parameters"]]
     robs, rl, ml, racc = rtcommon.run_histories(out, tooldir, env, [rsp] + rs2, [rh] + hs2, "C03 GetParam at run time", "C03")
     dist["runtime_getparam"] = sum(len(rl[k]) for k in racc)
+    # independent oracle for the escaping round trip at run time: a string whose every `%` is doubled evaluates to the string with
+    # each `%%` replaced by `%` (whatever else it looks like: `@name`, `!value x`, `$gontainer` are plain text in a parameter)
+    if 0 in racc:
+        from vlib import coqrun as _cq
+        dist["roundtrip_runtime"] = 0
+        for o, line in zip(rh, rl[0]):
+            if o["op"] != "param" or not o["name"].startswith("k"):
+                continue
+            sh = rcfg["parameters"][o["name"]]
+            if "%" in sh.replace("%%", ""):
+                continue
+            want = sh.replace("%%", "%").encode()
+            dist["roundtrip_runtime"] += 1
+            got = _cq.unesc(line[2:-1]) if line.startswith("S(") and line.endswith(")") else None
+            if got != want:
+                out.violation("runtime-roundtrip:%r" % sh[:12], "GetParam of the parameter %r (every %% doubled) returns %s instead of the string %r" % (sh, line[:200], want.decode()),
+                              dict(common.slim(rsp), history=[o], expected="S(%s)" % want.decode()))
+    elif not replay:
+        out.violation("runtime-roundtrip:rejected", "the configuration of plain-text / escaped parameters is rejected: %s" % ((robs[0].get("errors") or [])[:3]), dict(common.slim(rsp, robs[0])))
     out.coverage.update({
         "evaluations": evals + len(qb) + sum(len(rl[k]) for k in racc), "distinct_nontrivial": len(nontrivial), "exhaustive": tier == "thorough", "programs": len(racc),
         "rule": "every string up to length %d over %s (quick: all up to length 2, half of length 3, a sample of length 4) + random sequences over multi-byte runes, quotes, backslashes, newlines, control characters, astral runes and whole tokens, as parameter values and as service / call / field / decorator arguments; %%+q quoting compared with Go on the same strings and on invalid UTF-8; non-trivial = rejected pattern" % (maxlen, SIGMA),
